@@ -1946,7 +1946,7 @@ func (self *Node) toString() string {
 func (node *Node) toFloat64() (float64, error) {
 	ret, err := node.toNumber().Float64()
 	if err != nil {
-		return 0, err
+		return 0, boundNumError(err)
 	}
 	return ret, nil
 }
@@ -1954,9 +1954,18 @@ func (node *Node) toFloat64() (float64, error) {
 func (node *Node) toInt64() (int64, error) {
 	ret, err := node.toNumber().Int64()
 	if err != nil {
-		return 0, err
+		return 0, boundNumError(err)
 	}
 	return ret, nil
+}
+
+// boundNumError keeps the message of a strconv error bounded: it quotes the
+// whole literal, which is as long as the input allows.
+func boundNumError(err error) error {
+	if ne, ok := err.(*strconv.NumError); ok && len(ne.Num) > 64 {
+		return &strconv.NumError{Func: ne.Func, Num: ne.Num[:64] + "...", Err: ne.Err}
+	}
+	return err
 }
 
 func newBytes(v []byte) Node {
